@@ -267,6 +267,8 @@ static void op_lookup(const Args& a) {
   emit(std::to_string(k));
   if (c == 0 && k >= 0) badx("lookup-nul", "Utility::lookup(\"" + t + "\", NUL) = " + std::to_string(k) + " (matches the terminator)");
   if (k >= 0 && (k >= int(t.size()) || std::toupper((unsigned char)c) != (unsigned char)t[k])) badx("lookup-index", "wrong index");
+  // the std::string overload agrees (NUL is not in any table)
+  if (Utility::lookup(std::string(t), char(c)) != k) badx("lookup-index", "lookup(std::string, char) differs from lookup(const char*, char) for byte " + std::to_string(c));
 }
 
 // ---- GeoCoords ---------------------------------------------------------------------------------------------
@@ -673,6 +675,8 @@ static void gen_tool(Rng& r, const std::string& name) {
   run("tool", {name, std::to_string(variant), hs(input), hs(tags)});
 }
 
+#include "C10_glue.hpp"
+
 void gv::generate(const std::string& tier, uint64_t seed) {
   Rng r0(seed ^ 0xC10C10C10ULL); Rng r(r0.next());   // hashed: consecutive seeds give unrelated streams
   bool thorough = tier == "thorough";
@@ -795,6 +799,8 @@ void gv::generate(const std::string& tier, uint64_t seed) {
   // ---- tools
   for (int i = 0; i < 220 * N; ++i) gen_tool(r, "geoconvert");
   for (int i = 0; i < 160 * N; ++i) gen_tool(r, "geodsolve");
+  // ---- glue: calendar, ParseLine, trim, val<bool/int>, readarray/writearray, GeoCoords accessors / alternate zone / string constructor
+  gen_glue(r, thorough);
 }
 
 int main(int c, char** v) { return gv::main_(c, v); }
